@@ -1427,4 +1427,223 @@ theorem durItems_format (cfg : DurCfg) (tbl : UnitTable) (hU : UnitsOk tbl) (d :
     omega
 
 
+/-! ### the order of renderings -/
+
+/-- days before March-based year `y'` (relative to the calendar's own origin) -/
+def marchDays (y : Int) : Int := 365 * y + y / 4 - y / 100 + y / 400
+
+/-- the March-based year and day-of-year of a day number -/
+theorem civil_march (z : Int) : ∃ y' doy mp : Int,
+    0 ≤ doy ∧ doy ≤ 365 ∧ (doy = 365 → (y' + 1) % 4 = 0 ∧ ((y' + 1) % 100 ≠ 0 ∨ (y' + 1) % 400 = 0)) ∧
+    marchDays y' + doy = z + 719468 ∧ mp = (5 * doy + 2) / 153 ∧ 0 ≤ mp ∧ mp ≤ 11 ∧
+    civilFromDays z = (y' + (if mp < 10 then 0 else 1), (if mp < 10 then mp + 3 else mp - 9),
+      doy - (153 * mp + 2) / 5 + 1) := by
+  obtain ⟨era, yoe, doy, mp, h1, h2, h3, h4, h5, h6, h7, h8, h9, h10⟩ := civil_spec z
+  refine ⟨yoe + era * 400, doy, mp, h3, h4, ?_, ?_, h7, h5, h6, ?_⟩
+  · intro hd; have := h9 hd; omega
+  · unfold marchDays
+    have e4 : (yoe + era * 400) / 4 = yoe / 4 + era * 100 := by omega
+    have e100 : (yoe + era * 400) / 100 = yoe / 100 + era * 4 := by omega
+    have e400 : (yoe + era * 400) / 400 = era := by omega
+    rw [e4, e100, e400]; omega
+  · rw [h10]
+    by_cases hm : mp < 10
+    · simp only [hm, if_true]
+      rw [if_neg (by omega)]
+    · simp only [hm, if_false]
+      rw [if_pos (by omega)]
+
+theorem marchDays_step (y : Int) :
+    marchDays (y + 1) - marchDays y = if (y + 1) % 4 = 0 ∧ ((y + 1) % 100 ≠ 0 ∨ (y + 1) % 400 = 0) then 366 else 365 := by
+  unfold marchDays
+  split <;> omega
+
+theorem marchDays_mono (a b : Int) (h : a ≤ b) : marchDays a ≤ marchDays b := by
+  unfold marchDays; omega
+
+/-- lexicographic order on civil dates -/
+def dateLt (a b : Int × Int × Int) : Prop :=
+  a.1 < b.1 ∨ (a.1 = b.1 ∧ (a.2.1 < b.2.1 ∨ (a.2.1 = b.2.1 ∧ a.2.2 < b.2.2)))
+
+theorem civilFromDays_lt (n1 n2 : Int) (h : n1 < n2) : dateLt (civilFromDays n1) (civilFromDays n2) := by
+  obtain ⟨y1, d1, m1, a1, a2, a3, a4, a5, a6, a7, a8⟩ := civil_march n1
+  obtain ⟨y2, d2, m2, b1, b2, b3, b4, b5, b6, b7, b8⟩ := civil_march n2
+  rw [a8, b8]
+  have s1 := marchDays_step y1
+  have hy : y1 ≤ y2 := by
+    by_cases hc : y1 ≤ y2
+    · exact hc
+    · have := marchDays_mono (y2 + 1) y1 (by omega)
+      have s2 := marchDays_step y2
+      split at s2 <;> omega
+  unfold dateLt
+  simp only []
+  have hm12 : y1 = y2 → m1 ≤ m2 := by intro e; subst e; omega
+  have hT : y1 < y2 → marchDays (y1 + 1) ≤ marchDays y2 := fun hlt => marchDays_mono _ _ (by omega)
+  have hdd : y1 = y2 → d1 < d2 := by intro e; subst e; omega
+  by_cases h10 : m1 < 10 <;> by_cases h20 : m2 < 10 <;> simp only [h10, h20, if_true, if_false]
+  all_goals
+    by_cases hyy : y1 = y2
+    · have := hm12 hyy; have := hdd hyy; omega
+    · have := hT (by omega); split at s1 <;> omega
+
+theorem lex_append_left (a x y : List Char) (h : x < y) : a ++ x < a ++ y := by
+  induction a with
+  | nil => exact h
+  | cons c a ih => exact List.Lex.cons ih
+
+theorem lex_append_of_lt (a1 a2 x y : List Char) (h : a1 < a2) (hl : a1.length = a2.length) :
+    a1 ++ x < a2 ++ y := by
+  induction a1 generalizing a2 with
+  | nil =>
+    cases a2 with
+    | nil => exact absurd h (by intro h'; cases h')
+    | cons c l => simp at hl
+  | cons c1 l1 ih =>
+    cases a2 with
+    | nil => simp at hl
+    | cons c2 l2 =>
+      cases h with
+      | rel hr => exact List.Lex.rel hr
+      | cons hc => exact List.Lex.cons (ih l2 hc (by simpa using hl))
+
+theorem digitOf_toNat {k : Nat} (h : k < 10) : (digitOf k).toNat = 48 + k := by
+  have : k = 0 ∨ k = 1 ∨ k = 2 ∨ k = 3 ∨ k = 4 ∨ k = 5 ∨ k = 6 ∨ k = 7 ∨ k = 8 ∨ k = 9 := by omega
+  rcases this with rfl | rfl | rfl | rfl | rfl | rfl | rfl | rfl | rfl | rfl <;> rfl
+
+theorem digitOf_lt {k1 k2 : Nat} (h : k1 < k2) (h2 : k2 < 10) : digitOf k1 < digitOf k2 := by
+  apply Char.lt_def.mpr
+  have e1 := digitOf_toNat (show k1 < 10 by omega)
+  have e2 := digitOf_toNat h2
+  show (digitOf k1).toNat < (digitOf k2).toNat
+  omega
+
+theorem fixDigits_lt (p k1 k2 : Nat) (h : k1 < k2) (h2 : k2 < pow10 p) :
+    fixDigits p k1 < fixDigits p k2 := by
+  induction p generalizing k1 k2 with
+  | zero => simp only [pow10] at h2; omega
+  | succ p ih =>
+    have hp := pow10_pos p
+    simp only [pow10] at h2
+    have q2 : k2 / pow10 p < 10 := (Nat.div_lt_iff_lt_mul hp).mpr h2
+    have q1 : k1 / pow10 p < 10 := (Nat.div_lt_iff_lt_mul hp).mpr (by omega)
+    have hle : k1 / pow10 p ≤ k2 / pow10 p := Nat.div_le_div_right (by omega)
+    simp only [fixDigits, Nat.mod_eq_of_lt q1, Nat.mod_eq_of_lt q2]
+    by_cases hq : k1 / pow10 p < k2 / pow10 p
+    · exact List.Lex.rel (digitOf_lt hq q2)
+    · have heq : k1 / pow10 p = k2 / pow10 p := by omega
+      rw [heq]
+      apply List.Lex.cons
+      apply ih _ _ _ (Nat.mod_lt _ hp)
+      have e1 := Nat.div_add_mod k1 (pow10 p)
+      have e2 := Nat.div_add_mod k2 (pow10 p)
+      rw [heq] at e1
+      omega
+
+/-- a numeric field of fixed width followed by a separator: smaller number, or equal number and
+smaller rest, gives a smaller string -/
+theorem num_step (wd n1 n2 : Nat) (c : Char) (r1 r2 : List Char) (h2 : n2 < pow10 wd)
+    (h : n1 < n2 ∨ (n1 = n2 ∧ r1 < r2)) :
+    fixDigits wd n1 ++ c :: r1 < fixDigits wd n2 ++ c :: r2 := by
+  rcases h with h | ⟨rfl, h⟩
+  · exact lex_append_of_lt _ _ _ _ (fixDigits_lt wd n1 n2 h h2) (by simp [fixDigits_length])
+  · exact lex_append_left _ _ _ (List.Lex.cons h)
+
+theorem natDigits_eq_fix4 (y : Nat) (h1 : 1000 ≤ y) (h2 : y ≤ 9999) : natDigits y = fixDigits 4 y := by
+  rw [natDigits_rec, if_neg (by omega), natDigits_rec (y / 10), if_neg (by omega),
+    natDigits_rec (y / 10 / 10), if_neg (by omega), natDigits_rec (y / 10 / 10 / 10), if_pos (by omega)]
+  simp only [fixDigits, pow10, List.cons_append, List.nil_append, List.cons.injEq, and_true]
+  exact ⟨congrArg digitOf (by omega), congrArg digitOf (by omega), congrArg digitOf (by omega),
+    congrArg digitOf (by omega)⟩
+
+theorem pad2_eq_fix2 (n : Nat) (_h : n < 100) : pad2 n = fixDigits 2 n := by
+  have e1 : n / pow10 1 % 10 = n / 10 % 10 := by simp [pow10]
+  have e2 : n % pow10 1 / pow10 0 % 10 = n % 10 := by simp [pow10]
+  simp only [pad2, fixDigits, e1, e2]
+
+/-- lexicographic order on (civil fields, fraction) -/
+def keyLt (c1 : Civil) (f1 : Nat) (c2 : Civil) (f2 : Nat) : Prop :=
+  c1.y < c2.y ∨ (c1.y = c2.y ∧ (c1.m < c2.m ∨ (c1.m = c2.m ∧ (c1.d < c2.d ∨ (c1.d = c2.d ∧
+    (c1.hh < c2.hh ∨ (c1.hh = c2.hh ∧ (c1.mm < c2.mm ∨ (c1.mm = c2.mm ∧
+      (c1.ss < c2.ss ∨ (c1.ss = c2.ss ∧ f1 < f2)))))))))))
+
+theorem civilOfSecs_key (s1 s2 : Int) (f1 f2 : Nat) (h : s1 < s2 ∨ (s1 = s2 ∧ f1 < f2)) :
+    keyLt (civilOfSecs s1) f1 (civilOfSecs s2) f2 := by
+  unfold keyLt
+  rcases h with h | ⟨rfl, h⟩
+  · by_cases hd : s1 / 86400 < s2 / 86400
+    · have := civilFromDays_lt _ _ hd
+      unfold dateLt at this
+      simp only [civilOfSecs]
+      omega
+    · have hd' : s1 / 86400 = s2 / 86400 := by omega
+      simp only [civilOfSecs, hd', Int.lt_irrefl, false_or, true_and]
+      have hr : s1 % 86400 < s2 % 86400 := by omega
+      have b1 : 0 ≤ s1 % 86400 := by omega
+      have b2 : s2 % 86400 < 86400 := by omega
+      generalize s1 % 86400 = r1 at *
+      generalize s2 % 86400 = r2 at *
+      omega
+  · omega
+
+theorem formatCivil_lt (c1 c2 : Civil) (p f1 f2 : Nat) (hp : 1 ≤ p) (hv1 : c1.valid = true)
+    (hv2 : c2.valid = true) (hy1 : 1000 ≤ c1.y) (hy2 : 1000 ≤ c2.y) (hf : f2 < pow10 p)
+    (h : keyLt c1 f1 c2 f2) : formatCivil c1 p f1 < formatCivil c2 p f2 := by
+  simp only [Civil.valid, Bool.and_eq_true, decide_eq_true_eq] at hv1 hv2
+  have hd1 := daysInMonth_le c1.y c1.m
+  have hd2 := daysInMonth_le c2.y c2.m
+  rw [formatCivil_eq, formatCivil_eq]
+  unfold dateText timeText
+  rw [if_neg (by omega), if_neg (by omega)]
+  rw [natDigits_eq_fix4 _ (by omega) (by omega), natDigits_eq_fix4 _ (by omega) (by omega)]
+  repeat rw [pad2_eq_fix2 _ (by omega)]
+  simp only [List.append_assoc, List.cons_append]
+  unfold keyLt at h
+  apply num_step 4 _ _ '-' _ _ (by simp only [pow10]; omega)
+  rcases h with h | ⟨h0, h⟩
+  · left; omega
+  right; refine ⟨by omega, ?_⟩
+  apply num_step 2 _ _ '-' _ _ (by simp only [pow10]; omega)
+  rcases h with h | ⟨h0, h⟩
+  · left; omega
+  right; refine ⟨by omega, ?_⟩
+  apply num_step 2 _ _ ' ' _ _ (by simp only [pow10]; omega)
+  rcases h with h | ⟨h0, h⟩
+  · left; omega
+  right; refine ⟨by omega, ?_⟩
+  apply num_step 2 _ _ ':' _ _ (by simp only [pow10]; omega)
+  rcases h with h | ⟨h0, h⟩
+  · left; omega
+  right; refine ⟨by omega, ?_⟩
+  apply num_step 2 _ _ ':' _ _ (by simp only [pow10]; omega)
+  rcases h with h | ⟨h0, h⟩
+  · left; omega
+  right; refine ⟨by omega, ?_⟩
+  apply num_step 2 _ _ '.' _ _ (by simp only [pow10]; omega)
+  rcases h with h | ⟨h0, h⟩
+  · left; omega
+  right; exact ⟨by omega, fixDigits_lt p f1 f2 h hf⟩
+
+
+/-- fraction digits of two rendered instants within the same second are ordered like the instants -/
+theorem frac_lt_of (p : Nat) (hp1 : 1 ≤ p) (hp : p ≤ 6) (a b ba bb : Int)
+    (hlt : roundTo p a ba < roundTo p b bb)
+    (hs : roundTo p a ba / 1000000 = roundTo p b bb / 1000000) :
+    (roundTo p a ba % 1000000).toNat / pow10 (6 - p) < (roundTo p b bb % 1000000).toNat / pow10 (6 - p) := by
+  obtain ⟨k1, hk1, -, -⟩ := roundTo_spec p a ba hp
+  obtain ⟨k2, hk2, -, -⟩ := roundTo_spec p b bb hp
+  generalize roundTo p a ba = v1 at *
+  generalize roundTo p b bb = v2 at *
+  have : p = 1 ∨ p = 2 ∨ p = 3 ∨ p = 4 ∨ p = 5 ∨ p = 6 := by omega
+  rcases this with rfl | rfl | rfl | rfl | rfl | rfl
+  all_goals
+    first
+      | rw [show pow10 (6 - 1) = 100000 from rfl] at *
+      | rw [show pow10 (6 - 2) = 10000 from rfl] at *
+      | rw [show pow10 (6 - 3) = 1000 from rfl] at *
+      | rw [show pow10 (6 - 4) = 100 from rfl] at *
+      | rw [show pow10 (6 - 5) = 10 from rfl] at *
+      | rw [show pow10 (6 - 6) = 1 from rfl] at *
+    omega
+
 end Cpppo.Times
